@@ -26,7 +26,6 @@ template <>
 void expect_raises_fn<std::exception>(const char* file, uint64_t line, std::function<void()> fn) {
   try {
     fn();
-    expect_generic(false, "expected exception, but none raised", file, line);
   } catch (const std::exception& e) {
     return;
   } catch (...) {
@@ -35,6 +34,10 @@ void expect_raises_fn<std::exception>(const char* file, uint64_t line, std::func
     // std::exception anyway.
     expect_generic(false, "incorrect exception type raised", file, line);
   }
+  // fn returned normally. This check must not be inside the try block above:
+  // expectation_failed is a std::logic_error, so the handlers would catch it
+  // (and take it for the expected exception if ExcT is one of its bases).
+  expect_generic(false, "expected exception, but none raised", file, line);
 };
 
 } // namespace phosg
